@@ -190,3 +190,40 @@ Theorem C17_date_month_carry : forall y m d k, 1900 <= y <= 9999 -> 1900 <= y + 
   = date_time.f_date (VInt (y + k)) (VInt m) (VInt d).
 Proof. exact date_month_carry. Qed.
 Print Assumptions C17_date_month_carry.
+
+(* OUT-OF-RANGE RESULTS ARE #NUM!: the forward day carry past 9999-12-31 ... *)
+Theorem C17_day_carry_overflow : forall y m d, 1900 <= y <= 9999 ->
+  1900 <= nyear y m -> (nyear y m = 1900 -> 3 <= nmonth m) ->
+  1 <= d <= 25000 -> 2958465 < ymd2ord (nyear y m) (nmonth m) 1 - 693594 + d - 1 ->
+  date_time.f_date (VInt y) (VInt m) (VInt d) = Ok excelutil.c_NUM_ERROR.
+Proof. exact day_carry_overflow. Qed.
+Print Assumptions C17_day_carry_overflow.
+
+(* ... and EDATE / EOMONTH whose target month lies before 1899 or after 9999 (y3, m3:
+   the month after the target, whose first day EOMONTH computes; the guard "February
+   only of a positive year" excludes the TypeError of Refuted/C17_date_exceptions.v) *)
+Theorem C17_months_out_of_calendar : forall n k y m d, 60 < n <= 2958465 ->
+  ord2ymd (693594 + n) = (y, m, d) ->
+  (let y2 := nyear y (m + k) in let m2 := nmonth (m + k) in
+   (m2 = 2 -> 0 < y2) -> y2 < 1899 \/ 10000 <= y2 ->
+   date_time.f_edate (VInt n) (VInt k) = Ok excelutil.c_NUM_ERROR)
+  /\ (let y3 := nyear y (m + k + 1) in let m3 := nmonth (m + k + 1) in
+      (m3 = 2 -> 0 < y3) -> y3 < 1899 \/ 10000 <= y3 ->
+      date_time.f_eomonth (VInt n) (VInt k) = Ok excelutil.c_NUM_ERROR).
+Proof. exact months_out_of_calendar. Qed.
+Print Assumptions C17_months_out_of_calendar.
+
+(* THE DAY BORROW AS THE CODE COMPUTES IT (known finding C17-day-borrow, all
+   inputs with a one-month borrow): for a month (y, m) from 1900-04 on and
+   -27 <= d <= 0, DATE(y, m, d) is off from DATE(y, m, 1) + d - 1 by exactly
+   days_in_month(m) - days_in_month(m - 1): correct only when the two months are
+   equally long *)
+Theorem C17_day_borrow_defect : forall y m d, 1900 <= y <= 9999 -> 1 <= m <= 12 ->
+  (y = 1900 -> 4 <= m) -> -27 <= d <= 0 ->
+  let yp := nyear y (m - 1) in let mp := nmonth (m - 1) in
+  exists n1, 60 < n1
+    /\ date_time.f_date (VInt y) (VInt m) (VInt 1) = Ok (VInt n1)
+    /\ date_time.f_date (VInt y) (VInt m) (VInt d)
+       = Ok (VInt (n1 + d - 1 + (days_in_month y m - days_in_month yp mp))).
+Proof. exact day_borrow_defect. Qed.
+Print Assumptions C17_day_borrow_defect.
